@@ -5,7 +5,7 @@
 From Coq Require Import Arith NArith List Bool Init.Byte.
 From RSV Require Import model.Publisher proofs.PublisherProofs.
 From RSV Require Import gen.GenConst lib.Bytes model.Frame model.Fragmenter model.StreamIds model.Endpoint
-     proofs.EndpointProofs proofs.EndpointSignals.
+     proofs.EndpointProofs proofs.EndpointSignals proofs.EndpointKinds.
 Import ListNotations.
 Open Scope N_scope.
 
@@ -16,6 +16,13 @@ Theorem C09_stream_cancel u e oid o : Inv e -> nth_error (objs e) oid = Some o -
   forall ls, no_late (finish e (o_sid o)) ls oid -> dsigs oid (concat (snd (ep_run (finish e (o_sid o)) ls))) = [].
 Proof. exact (rs_cancel_silences u e oid o). Qed.
 Print Assumptions C09_stream_cancel.
+
+(* ... and that premise is vacuous for a stream subscription: in EVERY continuation whatsoever *)
+Theorem C09_stream_cancel_unconditional u e oid o : Inv e -> nth_error (objs e) oid = Some o -> o_kind o = KRSReq ->
+  ep_step u e (LCancel oid) = (finish e (o_sid o), [XEnq (f_cancel (o_sid o))]) /\
+  forall ls, dsigs oid (concat (snd (ep_run (finish e (o_sid o)) ls))) = [].
+Proof. exact (rs_cancel_silences_always u e oid o). Qed.
+Print Assumptions C09_stream_cancel_unconditional.
 
 (* elements in flight for the cancelled stream are dropped without a trace *)
 Theorem C09_inflight_dropped e sid ign co nx md d o u : gone e sid -> sid <> CONNECTION_STREAM_ID ->
